@@ -203,7 +203,10 @@ struct Run
 inline Run runOne(Endpoint &ep, const Bytes &stream, const size_t *cuts, size_t ncuts, bool bytewise, bool detail)
 {
   Run r;
-  ep.open();
+  if (detail)
+    ep.open(); // baseline: through the real handshake path
+  else
+    ep.openFast();
   try
   {
     const uint8_t *p = (const uint8_t *)stream.data();
@@ -283,6 +286,7 @@ inline void prepare(Ctx &cx, SeqCase &sc)
   sc.exp = expectOf(sc.frames);
   sc.head = std::string("seg ep=") + sc.ep + " pre=" + (sc.pre ? "1" : "0") + " fr=" + sc.desc + " cuts=";
   cx.C.feedUpgrade = !sc.pre;
+  ep.setMax(kLibraryDefaultMax); // the hostile families shrink the maximum on the long-lived server
 }
 inline void finish(Ctx &cx) { cx.C.feedUpgrade = true; }
 
